@@ -16,7 +16,7 @@ import ast
 from ..model import AnalysisError
 from ..sym import U, is_const, Run, run_function
 from ..util import (bind_call, strip_await, where, same, SA, SERVER, MANAGER,
-                    PUBSUB, ns_or_default)
+                    PUBSUB, ns_or_default, eval_cmp, num_val)
 from .common import (effects, sends, packet_ctor, trigger_calls,
                      caught_origin, txt)
 
@@ -620,20 +620,15 @@ def r7_refused(ctx):
     for n in (0, 1, 2, 3):
         def oracle(atom, run, st, n=n):
             a = run.expand(atom)
-            if isinstance(a, ast.Compare) and len(a.ops) == 1 and \
-                    U(a.left) == 'len(%s)' % av and \
-                    isinstance(a.comparators[0], ast.Constant):
-                k = a.comparators[0].value
-                op = a.ops[0]
-                nn = n if n < 3 else 3
-                tbl = {ast.Eq: nn == k, ast.Gt: nn > k, ast.GtE: nn >= k,
-                       ast.Lt: nn < k, ast.LtE: nn <= k}
-                for t, v in tbl.items():
-                    if isinstance(op, t):
-                        if n == 3 and isinstance(op, (ast.Eq, ast.Lt,
-                                                      ast.LtE)) and k > 3:
-                            return None
-                        return v
+            r = eval_cmp(a, num_val({'len(%s)' % av: n}))
+            if r is not None:
+                if n == 3:
+                    # 3 stands for "3 or more": the verdict must not depend
+                    # on the representative
+                    r2 = eval_cmp(a, num_val({'len(%s)' % av: 9}))
+                    if r2 != r:
+                        return None
+                return r
             if U(a) == av:
                 return n > 0
             return None
